@@ -496,6 +496,46 @@ theorem known_field_step (c : Cls) (wf : ClsWF S c) (hg : c.groom = none) (acc :
   rw [this, htag, hnl, hnk]; simp
 
 
+theorem lookup_mem {α} {k : Str} {v : α} : ∀ {l : List (Str × α)}, lookup k l = some v → (k, v) ∈ l
+  | [], h => by simp [lookup] at h
+  | (k', v') :: r, h => by
+    simp only [lookup] at h
+    split at h
+    · rename_i hk; simp at h; subst hk; subst h; simp
+    · exact List.mem_cons_of_mem _ (lookup_mem h)
+
+/-- what a child of the written tree is: the leaf of a supported non-repeated element attribute, or the
+    written tree of a sub-aggregate field / list member -/
+def ChildOk (c : Cls) (fields : List (Str × Node)) (items : List Node) (ch : Tree) : Prop :=
+  (∃ a ∈ c.spec, ∃ x s, a.kind.isList = false ∧ a.kind.isUnsupported = false ∧ x ≠ .none ∧
+      lookup a.name fields = some (.val x) ∧ cv.unconvert S.enums a.kind a.required x = .ok (.str s) ∧
+      ch = Tree.node (upper a.name) (some s) none []) ∨
+  (∃ v, ((∃ n, (n, v) ∈ fields) ∨ v ∈ items) ∧ v.isAgg = true ∧ toEtree S cv v = .ok ch)
+
+theorem itemTrees_mapM (items : List Node) : ∀ (ts : List Tree),
+    (itemTrees S cv items).mapM id = .ok ts → ∀ ch ∈ ts, ∃ v ∈ items, toEtree S cv v = .ok ch := by
+  induction items with
+  | nil =>
+    intro ts h ch hch
+    simp [itemTrees, pure, Except.pure] at h
+    subst h; simp at hch
+  | cons v vs ih =>
+    intro ts h ch hch
+    simp only [itemTrees, List.mapM_cons, id] at h
+    cases hv : toEtree S cv v with
+    | error e => simp [hv, bind, Except.bind] at h
+    | ok tv =>
+      cases hvs : (itemTrees S cv vs).mapM id with
+      | error e => simp [hv, hvs, bind, Except.bind] at h
+      | ok tvs =>
+        simp [hv, hvs, bind, Except.bind, pure, Except.pure] at h
+        subst h
+        simp only [List.mem_cons] at hch
+        rcases hch with rfl | hch
+        · exact ⟨v, by simp, hv⟩
+        · obtain ⟨w, hw, hwt⟩ := ih tvs hvs ch hch
+          exact ⟨w, by simp [hw], hwt⟩
+
 theorem emit_fold (c : Cls) (fields : List (Str × Node)) (items : List Node)
     (ctx : RTCtx S cv esc Dom c fields items) :
     ∀ (rest pre : List Attr) (doList : Bool) (acc : Accum), c.spec = pre ++ rest →
@@ -506,9 +546,10 @@ theorem emit_fold (c : Cls) (fields : List (Str × Node)) (items : List Node)
       emitSpec S cv c fields (fieldTrees S cv fields) items (itemTrees S cv items) rest doList = .ok ts ∧
       foldChildren c (mapTextList esc ts) (childInsts S cv (mapTextList esc ts)) acc = .ok acc' ∧
       acc'.kwargs = acc.kwargs ++ rawKwOf S cv esc fields rest ∧
-      acc'.args = acc.args ++ (if doList && rest.any (·.kind.isList) then items else [])
+      acc'.args = acc.args ++ (if doList && rest.any (·.kind.isList) then items else []) ∧
+      (∀ ch ∈ ts, ChildOk S cv c fields items ch)
   | [], pre, doList, acc, _, _, _, _ =>
-    ⟨[], acc, rfl, rfl, by simp [rawKwOf], by simp⟩
+    ⟨[], acc, rfl, rfl, by simp [rawKwOf], by simp, by simp⟩
   | a :: rest, pre, doList, acc, hspec, hdl, hkeys, hprev => by
     have hspec' : c.spec = (pre ++ [a]) ++ rest := by simp [hspec]
     have ha : a ∈ c.spec := by rw [hspec]; simp
@@ -523,13 +564,13 @@ theorem emit_fold (c : Cls) (fields : List (Str × Node)) (items : List Node)
           constructor
           · intro h; exact absurd h (by simp)
           · intro h; have := h a (by simp); simp [hl] at this
-        obtain ⟨ts, acc', hemit, hfold, hkw, hargs⟩ :=
+        obtain ⟨ts, acc', hemit, hfold, hkw, hargs, hch⟩ :=
           emit_fold c fields items ctx rest (pre ++ [a]) false acc hspec' hdl'
             (fun k hk => by
               have := hkeys k hk
               simp only [List.map_append, List.mem_append]; exact Or.inl this)
             (hprev.snoc a)
-        refine ⟨ts, acc', ?_, hfold, ?_, ?_⟩
+        refine ⟨ts, acc', ?_, hfold, ?_, ?_, hch⟩
         · rw [emitSpec_list_later S cv c fields items a rest hl]; exact hemit
         · simp [rawKwOf, hl, hkw]
         · simpa using hargs
@@ -567,14 +608,14 @@ theorem emit_fold (c : Cls) (fields : List (Str × Node)) (items : List Node)
               · exact absurd h.1 (by simp)
           · obtain ⟨_, q, aq, hq, hget, hql⟩ := hconsI hit
             unfold PrevOk; rw [hq]; exact Or.inr ⟨rfl, aq, hget, hql⟩
-        obtain ⟨ts, acc', hemit, hfold, hkw, hargs⟩ :=
+        obtain ⟨ts, acc', hemit, hfold, hkw, hargs, hch⟩ :=
           emit_fold c fields items ctx rest (pre ++ [a]) false accI hspec' hdl'
             (fun k hk => by
               rw [hkwI] at hk
               have := hkeys k hk
               simp only [List.map_append, List.mem_append]; exact Or.inl this)
             hprevI
-        refine ⟨tsI ++ ts, acc', ?_, ?_, ?_, ?_⟩
+        refine ⟨tsI ++ ts, acc', ?_, ?_, ?_, ?_, ?_⟩
         · rw [emitSpec_list_first S cv c fields items a rest hl]
           simp [listAppend, ctx.hel, htsI, hemit, bind, Except.bind, pure, Except.pure]
         · rw [mapTextList_append, childInsts_append,
@@ -582,6 +623,13 @@ theorem emit_fold (c : Cls) (fields : List (Str × Node)) (items : List Node)
           simp [hfoldI, bind, Except.bind, hfold]
         · simp [rawKwOf, hl, hkw, hkwI]
         · simp [hargs, hargsI, hl]
+        · intro ch hmem
+          simp only [List.mem_append] at hmem
+          rcases hmem with hmem | hmem
+          · obtain ⟨v, hv, hvt⟩ := itemTrees_mapM S cv items tsI htsI ch hmem
+            obtain ⟨cj, f, i, _, rfl, _⟩ := (ctx.itemsOk v hv).ex
+            exact Or.inr ⟨_, Or.inr hv, rfl, hvt⟩
+          · exact hch ch hmem
     · -- a non-list attribute
       have hl : a.kind.isList = false := by simpa using hl
       have hdl' : (doList = true ↔ ∀ x ∈ pre ++ [a], x.kind.isList = false) := by
@@ -594,13 +642,13 @@ theorem emit_fold (c : Cls) (fields : List (Str × Node)) (items : List Node)
           · exact hl
         · intro h x hx; exact h x (by simp [hx])
       by_cases hu : a.kind.isUnsupported = true
-      · obtain ⟨ts, acc', hemit, hfold, hkw, hargs⟩ :=
+      · obtain ⟨ts, acc', hemit, hfold, hkw, hargs, hch⟩ :=
           emit_fold c fields items ctx rest (pre ++ [a]) doList acc hspec' hdl'
             (fun k hk => by
               have := hkeys k hk
               simp only [List.map_append, List.mem_append]; exact Or.inl this)
             (hprev.snoc a)
-        refine ⟨ts, acc', ?_, hfold, ?_, ?_⟩
+        refine ⟨ts, acc', ?_, hfold, ?_, ?_, hch⟩
         · rw [emitSpec_unsupported S cv c fields items a rest doList hl hu]; exact hemit
         · simp [rawKwOf, hl, hu, hkw]
         · simpa [hl] using hargs
@@ -619,40 +667,48 @@ theorem emit_fold (c : Cls) (fields : List (Str × Node)) (items : List Node)
         -- the common continuation: one tree `tr` emitted for this attribute, read back as `raw`
         have cont : ∀ (tr : Tree) (raw : Node),
             fieldTree S cv a v = .ok (some tr) → rawField S cv esc a v = some raw →
+            ChildOk S cv c fields items tr →
             lower (mapText esc tr).tag = a.name → '.' ∉ (mapText esc tr).tag →
             childValue (mapText esc tr) (fromEtree S cv (mapText esc tr)) = .ok raw →
             ∃ ts acc',
               emitSpec S cv c fields (fieldTrees S cv fields) items (itemTrees S cv items) (a :: rest) doList = .ok ts ∧
               foldChildren c (mapTextList esc ts) (childInsts S cv (mapTextList esc ts)) acc = .ok acc' ∧
               acc'.kwargs = acc.kwargs ++ rawKwOf S cv esc fields (a :: rest) ∧
-              acc'.args = acc.args ++ (if doList && (a :: rest).any (·.kind.isList) then items else []) := by
-          intro tr raw hft hraw htag hdot hval
+              acc'.args = acc.args ++ (if doList && (a :: rest).any (·.kind.isList) then items else []) ∧
+              (∀ ch ∈ ts, ChildOk S cv c fields items ch) := by
+          intro tr raw hft hraw hchild htag hdot hval
           have hstep := known_field_step S c ctx.wf ctx.hg acc (mapText esc tr) (fromEtree S cv (mapText esc tr))
             a pre rest raw doList hspec hl hu htag hdot hval hdl hkeys hprev
-          obtain ⟨ts, acc', hemit, hfold, hkw, hargs⟩ :=
+          obtain ⟨ts, acc', hemit, hfold, hkw, hargs, hch⟩ :=
             emit_fold c fields items ctx rest (pre ++ [a]) doList _ hspec' hdl' (hkeys1 raw) (hprev1 raw)
-          refine ⟨tr :: ts, acc', ?_, ?_, ?_, ?_⟩
+          refine ⟨tr :: ts, acc', ?_, ?_, ?_, ?_, ?_⟩
           · rw [emitSpec_field S cv c fields items a rest doList v hl hu hv]
             simp [hft, hemit, bind, Except.bind, pure, Except.pure]
           · simp only [mapTextList, childInsts, foldChildren, hstep, bind, Except.bind]
             exact hfold
           · simp [rawKwOf, hl, hu, hv, hraw, hkw]
           · simpa [hl] using hargs
+          · intro ch hmem
+            simp only [List.mem_cons] at hmem
+            rcases hmem with rfl | hmem
+            · exact hchild
+            · exact hch ch hmem
         -- nothing emitted for this attribute
         have skip : fieldTree S cv a v = .ok none → rawField S cv esc a v = none →
             ∃ ts acc',
               emitSpec S cv c fields (fieldTrees S cv fields) items (itemTrees S cv items) (a :: rest) doList = .ok ts ∧
               foldChildren c (mapTextList esc ts) (childInsts S cv (mapTextList esc ts)) acc = .ok acc' ∧
               acc'.kwargs = acc.kwargs ++ rawKwOf S cv esc fields (a :: rest) ∧
-              acc'.args = acc.args ++ (if doList && (a :: rest).any (·.kind.isList) then items else []) := by
+              acc'.args = acc.args ++ (if doList && (a :: rest).any (·.kind.isList) then items else []) ∧
+              (∀ ch ∈ ts, ChildOk S cv c fields items ch) := by
           intro hft hraw
-          obtain ⟨ts, acc', hemit, hfold, hkw, hargs⟩ :=
+          obtain ⟨ts, acc', hemit, hfold, hkw, hargs, hch⟩ :=
             emit_fold c fields items ctx rest (pre ++ [a]) doList acc hspec' hdl'
               (fun k hk => by
                 have := hkeys k hk
                 simp only [List.map_append, List.mem_append]; exact Or.inl this)
               (hprev.snoc a)
-          refine ⟨ts, acc', ?_, hfold, ?_, ?_⟩
+          refine ⟨ts, acc', ?_, hfold, ?_, ?_, hch⟩
           · rw [emitSpec_field S cv c fields items a rest doList v hl hu hv]
             simp [hft, hemit, bind, Except.bind, pure, Except.pure]
           · simp [rawKwOf, hl, hu, hv, hraw, hkw]
@@ -668,7 +724,7 @@ theorem emit_fold (c : Cls) (fields : List (Str × Node)) (items : List Node)
           · obtain ⟨tv, htv, hback⟩ := ctx.subRT a ha _ hv rfl
             obtain ⟨tc, htc, hlow, hdot, _⟩ := ctx.wf.subOk a ha t (Or.inl hkind)
             obtain ⟨htag, htext⟩ := toEtree_shape S cv t f i tc tv htc htv
-            refine cont tv (.agg t f i) ?_ rfl ?_ ?_ ?_
+            refine cont tv (.agg t f i) ?_ rfl (Or.inr ⟨_, Or.inl ⟨a.name, lookup_mem hv⟩, rfl, htv⟩) ?_ ?_ ?_
             · simp [fieldTree, htv, Except.map]
             · rw [mapText_tag, htag]; exact hlow
             · rw [mapText_tag, htag]; exact hdot
@@ -684,7 +740,7 @@ theorem emit_fold (c : Cls) (fields : List (Str × Node)) (items : List Node)
               cases x <;> simp_all [fieldTree, leafOf, bind, Except.bind, pure, Except.pure]
             have hraw : rawField S cv esc a (.val x) = some (.val (.str (esc s))) := by
               cases x <;> simp_all [rawField]
-            refine cont _ _ hft hraw ?_ ?_ ?_
+            refine cont _ _ hft hraw (Or.inl ⟨a, ha, x, s, hl, hu, hx, hv, hunc, rfl⟩) ?_ ?_ ?_
             · simpa [mapText, Tree.tag] using nk1
             · simpa [mapText, Tree.tag] using nk2
             · cases hes : esc s with
@@ -961,6 +1017,7 @@ variable (S : Schema) (cv : Conv) (esc : Str → Str) (Dom : Kind → Bool → V
 /-- what makes `agg ci fields items` a valid instance of class `c` (one level) -/
 structure NodeOk (c : Cls) (ci : Nat) (fields : List (Str × Node)) (items : List Node) : Prop where
   hc : S.cls? ci = some c
+  concrete : c.abstract = false
   hfind : S.findIdx? c.name = some ci
   wf : ClsWF S c
   hel : c.elementList = false
@@ -971,14 +1028,6 @@ structure NodeOk (c : Cls) (ci : Nat) (fields : List (Str × Node)) (items : Lis
     (listAggNames c).contains (lower cjc.name) = true ∧ '.' ∉ cjc.name
   noList : c.spec.any (·.kind.isList) = false → items = []
   validate : validateArgs S c items (rawKwOf S cv esc fields c.spec) = .ok ()
-
-theorem lookup_mem {α} {k : Str} {v : α} : ∀ {l : List (Str × α)}, lookup k l = some v → (k, v) ∈ l
-  | [], h => by simp [lookup] at h
-  | (k', v') :: r, h => by
-    simp only [lookup] at h
-    split at h
-    · rename_i hk; simp at h; subst hk; subst h; simp
-    · exact List.mem_cons_of_mem _ (lookup_mem h)
 
 theorem specNoList_nodup (c : Cls) (h : (c.spec.map (·.name)).Nodup) :
     ((specNoList c).map (·.name)).Nodup := by
@@ -996,7 +1045,7 @@ theorem node_rt (laws : ConvLaws cv S.enums esc Dom) (c : Cls) (ci : Nat) (field
         ok.fm.lookup hnd a (by simp [specNoList, ha, hl]) hu
       subRT := fun a _ v hv hagg => ihF a.name v (lookup_mem hv) hagg
       itemsOk := fun m hm => ⟨ok.itemsEx m hm, ihI m hm⟩ }
-  obtain ⟨ts, acc', hemit, hfold, hkw, hargs⟩ :=
+  obtain ⟨ts, acc', hemit, hfold, hkw, hargs, _⟩ :=
     emit_fold S cv esc Dom c fields items ctx c.spec [] true Accum.init (by simp)
       (by simp) (by intro k hk; simp [Accum.init, hasKey, lookup] at hk) (by simp [PrevOk, Accum.init])
   have hargs' : acc'.args = items := by
